@@ -4001,7 +4001,6 @@ class HCI_Write_Authenticated_Payload_Timeout_Command(
 # -----------------------------------------------------------------------------
 @dataclasses.dataclass
 class HCI_Read_Local_OOB_Extended_Data_ReturnParameters(HCI_StatusReturnParameters):
-    le_supported_host: int = field(metadata=metadata(1))
     c_192: bytes = field(metadata=metadata(16))
     r_192: bytes = field(metadata=metadata(16))
     c_256: bytes = field(metadata=metadata(16))
